@@ -38,6 +38,7 @@ from engine.framework import Check, Result, HarnessError, solve, model_value
 from engine.harness import assert_equal, box
 
 PID = "C19"
+geometries.SUPERCELLS.setdefault("nd7", [[2, 1, 0], [0, 1, 0], [0, 0, 1]])
 
 # CODATA 2018 (exact SI where defined)
 HBAR = 1.054571817e-34
@@ -54,12 +55,13 @@ LATTICES = {
     "lower": [[4.0, 0, 0], [1.2, 4.4, 0], [0.6, -0.8, 5.0]],
 }
 
-RD_CASES = [("tric2", "211"), ("tric2", "311"), ("cscl", "nd1"), ("sc1", "nd2"), ("cscl", "221"), ("tric2", "nd4"), ("hex2", "211"), ("mono2", "nd1"), ("bccI", "211"), ("tric2", "221")]
+# nd7 = [[2,1,0],[0,1,0],[0,0,1]]: the commensurate q-lattice of a supercell matrix and of its transpose differ
+RD_CASES = [("tric2", "211"), ("tric2", "311"), ("tric2", "nd7"), ("cscl", "nd7"), ("cscl", "nd1"), ("sc1", "nd2"), ("cscl", "221"), ("tric2", "nd4"), ("hex2", "211"), ("mono2", "nd1"), ("bccI", "211"), ("tric2", "221")]
 
 
 def units(tier):
     u = [("cif", k) for k in LATTICES] + [("tdm", 0), ("tdm", 1), ("sigma", "quantum"), ("sigma", "classical")]
-    cases = RD_CASES[:4] if tier == "quick" else RD_CASES
+    cases = RD_CASES[:5] if tier == "quick" else RD_CASES
     for g, s in cases:
         for df in ("quantum", "classical"):
             u.append(("rd", g, s, df))
